@@ -28,6 +28,7 @@ CONSTANTS K,          \* number of slots of the pool
 Slots == 1..K
 DefVal == 0            \* value of a value-initialised element
 BigCap == 300          \* argument of the "reserveBig" label
+HugeOps == {"insertNHuge", "appendNHuge"}      \* count argument = maximum of size_type - n
 
 Limit(c) == IF Flav[c] = "fixed" THEN NInl[c] ELSE MaxSz[c]
 LimitExc(c) == IF Flav[c] = "fixed" THEN "out_of_range" ELSE "overflow_error"
@@ -221,6 +222,9 @@ Step(st, lb) ==
          IF lb.it = "input" THEN GrowingEach(st, c, x, lb.vs, NoRet, Ident)
          ELSE Growing(st, c, s \o lb.vs, NoRet)
     [] lb.op = "appendIlist"  -> Growing(st, c, s \o lb.vs, NoRet)
+    \* a count close to the maximum of size_type (numeric_limits<size_type>::max() - n): size() + count is beyond every
+    \* limit, and must be found to be so although the sum does not fit the size type (offered only when it is)
+    [] lb.op \in HugeOps      -> R(st, ExcR(LimitExc(c)))
     [] lb.op = "eraseVal"     -> R(Upd(st, c, [x EXCEPT !.vals = RemoveVal(s, lb.v)]), ValR(CountVal(s, lb.v)))
     \* erase_if (C++20): removes every element with v % 2 = n, returns how many
     [] lb.op = "eraseIf"      -> R(Upd(st, c, [x EXCEPT !.vals = SelectSeq(s, LAMBDA e : e % 2 # lb.n)]),
@@ -260,7 +264,7 @@ CtorOps1 == {"ctorDefault", "ctorCount", "ctorCountVal", "ctorRange", "ctorIlist
 BinSame == {"assignCopy", "assignMove", "swap", "freeSwap", "eq", "ne", "lt", "le", "gt", "ge"}
 AliasOps == {"emplaceF", "emplaceBackF", "pushBack", "insert1", "insertN", "emplace", "emplaceBack", "resizeVal", "assignN", "appendNVal"}
 AllOps == MutOps1 \cup ObsOps1 \cup CtorOps1 \cup BinSame \cup {"ctorCopy", "ctorMove", "ctorFromVector", "destroy", "swap2"}
-AllOpsBig == AllOps \cup {"reserveBig"}
+AllOpsBig == AllOps \cup {"reserveBig"} \cup HugeOps
 
 \* Vals: value domain;  MaxLen: bound on the size;  MaxCnt: bound on counts;  Its: iterator kinds;
 \* RLens: lengths of range arguments;  Alias: offer value arguments that refer to own elements (C10);
@@ -336,6 +340,8 @@ OpLabels(st, c, o, Vals, MaxLen, MaxCnt, Its, RLens, Alias, Near) ==
       [] o = "appendRange"  -> {Lbl(o, c, 0, 0, 0, 0, 0, it, vs) : it \in Its, vs \in {r \in Ranges : Fits(sz + Len(r))}}
       [] o = "appendIlist"  -> {Lbl(o, c, 0, 0, 0, 0, 0, "", vs) : vs \in {r \in Ranges : Fits(sz + Len(r))}}
       [] o = "eraseVal"     -> {Lbl(o, c, 0, 0, 0, v, 0, "", <<>>) : v \in Vals}
+      [] o \in HugeOps      -> {Lbl(o, c, 0, p, n, v, 0, "", <<>>) : p \in (IF o = "insertNHuge" THEN Pos ELSE {0}),
+                                                                   n \in {m \in 0..1 : sz + MaxSz[c] - m > Limit(c)}, v \in Vals}
       [] o = "eraseIf"      -> {Lbl(o, c, 0, 0, n, 0, 0, "", <<>>) : n \in 0..1}
       [] o \in {"setIndex", "setData", "setIter", "setRIter"} -> {Lbl(o, c, 0, 0, n, v, 0, "", <<>>) : n \in PosE, v \in Vals}
       [] o = "setAt"        -> {Lbl(o, c, 0, 0, n, v, 0, "", <<>>) : n \in {m \in (IF big THEN {0, sz - 1, sz} ELSE 0..sz) : m <= MaxSz[c]}, v \in Vals}
